@@ -19,6 +19,8 @@ EXPLANATION = (
     "and looked up by the last dotted part plus the FieldFormat / Check suffix, identically for built-ins and plugins."
     " Added in rounds 6 and 7: (O20.5) every Reader / Writer the package itself creates (command line, rows(),"
     " validate(), GUI) is closed on every path."
+    " Added in rounds 8 and 9: (O20.6) every module object import_plugins creates escapes into a module-level"
+    " container or sys.modules (plugin classes are held only weakly by __subclasses__())."
 )
 ASSUMPTIONS = ["plugins subclass the abstract bases directly (documented); the plugin's own code is not analysed"]
 
